@@ -420,7 +420,7 @@ fn comp_eq(k: Kind, a: &dyn State, b: &dyn State) -> bool {
 fn compound_family(o: &mut Rep, seed: u64) {
     let mut g = Lcg(seed.wrapping_add(101));
     let layouts: Vec<Vec<Kind>> = vec![vec![Kind::R(1), Kind::R(1)], vec![Kind::R(2), Kind::So2], vec![Kind::So2, Kind::R(3), Kind::So3], vec![Kind::So3, Kind::R(1), Kind::R(6), Kind::So2], vec![Kind::R(5)]];
-    let wsets: Vec<Vec<f64>> = vec![vec![1.0, 1.0, 1.0, 1.0], vec![0.0, 1.0, 2.5, 0.5], vec![1.0e-17, 1.0, 1.0e6, 3.0], vec![2.0, 0.0, 0.0, 1.0e-9], vec![1.0, 0.5, 1.0e-17, 1.0e-17], vec![1.0e-17, 1.0e-17, 1.0e-17, 1.0e-17]];
+    let wsets: Vec<Vec<f64>> = vec![vec![1.0, 1.0, 1.0, 1.0], vec![0.0, 1.0, 2.5, 0.5], vec![1.0e-17, 1.0, 1.0e6, 3.0], vec![2.0, 0.0, 0.0, 1.0e-9], vec![1.0, 0.5, 1.0e-17, 1.0e-17], vec![1.0e-17, 1.0e-17, 1.0e-17, 1.0e-17], vec![1.0e9, 1.0, 1.0e11, 1.0]];
     for lay in &layouts { for ws in &wsets { for &bounded in &[false, true] {
         let w: Vec<f64> = ws[..lay.len()].to_vec();
         let parts: Vec<Box<dyn AnyStateSpace>> = lay.iter().map(|&k| comp_space(k, bounded)).collect();
@@ -436,12 +436,22 @@ fn compound_family(o: &mut Rep, seed: u64) {
             let d = sp.distance(&a, &b);
             let dr = (0..lay.len()).map(|i| (parts[i].distance_dyn(&*a.components[i], &*b.components[i]) * w[i]).powi(2)).sum::<f64>().sqrt();
             if !rclose(d, dr, 1.0e-12) { o.report("compound", seed, format!("C13 {}: distance {} but sqrt(sum (d_i w_i)^2) = {} for a={:?} b={:?}", name, d, dr, a, b)); }
+            // near-coincident pair (the first component moved by a hair): nothing is dropped from the weighted norm
+            let mut b2 = a.clone();
+            match lay[0] {
+                Kind::R(_) => { let r = (&mut *b2.components[0] as &mut dyn Any).downcast_mut::<RealVectorState>().unwrap(); r.values[0] += 5.0e-10; }
+                Kind::So2 => { let r = (&mut *b2.components[0] as &mut dyn Any).downcast_mut::<SO2State>().unwrap(); if r.value > 3.0 { r.value -= 4.0e-11; } else { r.value += 4.0e-11; } }
+                Kind::So3 => {}
+            }
+            let d2 = sp.distance(&a, &b2);
+            let dr2 = (0..lay.len()).map(|i| (parts[i].distance_dyn(&*a.components[i], &*b2.components[i]) * w[i]).powi(2)).sum::<f64>().sqrt();
+            if !rclose(d2, dr2, 1.0e-9) { o.report("compound", seed, format!("C13 {}: distance {:e} between near-coincident states but sqrt(sum (d_i w_i)^2) = {:e}", name, d2, dr2)); }
             // bounds check is the conjunction
             let c = sp.satisfies_bounds(&a);
             let cr = (0..lay.len()).all(|i| parts[i].satisfies_bounds_dyn(&*a.components[i]));
             if c != cr { o.report("compound", seed, format!("C13 {}: satisfies_bounds = {} but the conjunction of the component checks is {} for {:?}", name, c, cr, a)); }
             // interpolation is component-wise and writes every component (the output starts from an unrelated state)
-            for &t in &[0.0, 0.3, 1.0] {
+            for &t in &[0.0, 0.3, 1.0, -0.5, 1.75] {      // (t outside [0,1]: the compound does whatever its parts do)
                 let mut out = mk(&mut g);
                 sp.interpolate(&a, &a, t, &mut out);          // from == to: a component that does not move must still be written
                 for i in 0..lay.len() {
@@ -475,7 +485,7 @@ fn compound_family(o: &mut Rep, seed: u64) {
         }
     } } }
     // SE(2) / SE(3) behave as the compound of translation and rotation with weights (1, w)
-    for &w in &[0.0, 1.0e-9, 0.5, 1.0, 7.0, 1.0e6] { for &bcase in &[0usize, 1, 2, 3] {
+    for &w in &[0.0, 1.0e-9, 0.5, 1.0, 7.0, 1.0e6, 1.0e11] { for &bcase in &[0usize, 1, 2, 3] {
         let bounded = bcase > 0;
         // yaw bounds: ordinary, wide and off-centre (clipped to (-PI, 1) by the SO(2) constructor), half-infinite
         let yaw = [(-1.0, 2.0), (-1.0, 2.0), (-10.0, 1.0), (f64::NEG_INFINITY, 0.0)][bcase];
@@ -500,9 +510,19 @@ fn compound_family(o: &mut Rep, seed: u64) {
             let mut e = a.clone(); se2.enforce_bounds(&mut e);
             let (mut et, mut er) = (a.get_translation().clone(), a.get_rotation().clone()); r2.enforce_bounds(&mut et); so2.enforce_bounds(&mut er);
             if e.get_translation().values != et.values || e.get_rotation().value.to_bits() != er.value.to_bits() { o.report("compound", seed, format!("C13 SE2(w={}) bounded={}: enforce_bounds gives {:?}, the parts give {:?} / {:?}", w, bounded, e, et, er)); }
-            let mut out = SE2State::new(9.0, 9.0, 1.0); se2.interpolate(&a, &b, 0.3, &mut out);
-            let (mut ot, mut or) = (RealVectorState::new(vec![0.0, 0.0]), SO2State { value: 0.0 }); r2.interpolate(a.get_translation(), b.get_translation(), 0.3, &mut ot); so2.interpolate(a.get_rotation(), b.get_rotation(), 0.3, &mut or);
-            if out.get_translation().values != ot.values || out.get_rotation().value.to_bits() != or.value.to_bits() { o.report("compound", seed, format!("C13 SE2(w={}): interpolate gives {:?}, the parts give {:?} / {:?}", w, out, ot, or)); }
+            for &t in &[0.3, 0.0, 1.0, -0.5, 1.5, 3.0] {
+                let mut out = SE2State::new(9.0, 9.0, 1.0); se2.interpolate(&a, &b, t, &mut out);
+                let (mut ot, mut or) = (RealVectorState::new(vec![0.0, 0.0]), SO2State { value: 0.0 }); r2.interpolate(a.get_translation(), b.get_translation(), t, &mut ot); so2.interpolate(a.get_rotation(), b.get_rotation(), t, &mut or);
+                if out.get_translation().values != ot.values || out.get_rotation().value.to_bits() != or.value.to_bits() { o.report("compound", seed, format!("C13 SE2(w={}): interpolate(t = {}) gives {:?}, the parts give {:?} / {:?}", w, t, out, ot, or)); }
+            }
+            // near-coincident components: the weighted norm does not drop a small component distance (it may carry a large weight)
+            for &(dx, dt) in &[(5.0e-10, 0.0), (0.0, 4.0e-11), (3.0e-13, 2.0e-12)] {
+                let b2 = SE2State::new(ax + dx, ay, at * 0.9 + dt);
+                let a2 = SE2State::new(ax, ay, at * 0.9);
+                let d = se2.distance(&a2, &b2);
+                let dr = ((r2.distance(a2.get_translation(), b2.get_translation()) * 1.0).powi(2) + (so2.distance(a2.get_rotation(), b2.get_rotation()) * w).powi(2)).sqrt();
+                if !rclose(d, dr, 1.0e-9) { o.report("compound", seed, format!("C13 SE2(w={}): distance {:e} between near-coincident poses, the compound of R^2 and SO(2) with weights (1, w) gives {:e}", w, d, dr)); }
+            }
             let l2 = ((r2.get_longest_valid_segment_length() * 1.0).powi(2) + (so2.get_longest_valid_segment_length() * w).powi(2)).sqrt();
             if !close(se2.get_longest_valid_segment_length(), l2, 1.0e-12) { o.report("compound", seed, format!("C13 SE2(w={}): resolution {} but the parts give {}", w, se2.get_longest_valid_segment_length(), l2)); }
             // SE(3)
@@ -513,6 +533,12 @@ fn compound_family(o: &mut Rep, seed: u64) {
             let c = se3.satisfies_bounds(&a);
             let cr = r3.satisfies_bounds(a.get_translation()) && so3.satisfies_bounds(a.get_rotation());
             if c != cr { o.report("compound", seed, format!("C13 SE3(w={}) bounded={}: satisfies_bounds = {} but the parts say {}", w, bounded, c, cr)); }
+            for &t in &[0.3, 0.0, 1.0, -0.5, 1.5] {
+                let mut out = SE3State::new(9.0, 9.0, 9.0, SO3State::identity()); se3.interpolate(&a, &b, t, &mut out);
+                let (mut ot, mut or) = (RealVectorState::new(vec![0.0, 0.0, 0.0]), SO3State::identity()); r3.interpolate(a.get_translation(), b.get_translation(), t, &mut ot); so3.interpolate(a.get_rotation(), b.get_rotation(), t, &mut or);
+                let q = out.get_rotation();
+                if out.get_translation().values != ot.values || q.x.to_bits() != or.x.to_bits() || q.y.to_bits() != or.y.to_bits() || q.z.to_bits() != or.z.to_bits() || q.w.to_bits() != or.w.to_bits() { o.report("compound", seed, format!("C13 SE3(w={}): interpolate(t = {}) gives {:?}, the parts give {:?} / {:?}", w, t, out, ot, or)); }
+            }
             // enforce: also on a state whose rotation is not normalised (the rotation part has to be enforced as well)
             let mut raw = SE3State::new(ax, ay, az, SO3State::new(qa.x * 3.0, qa.y * 3.0, qa.z * 3.0, qa.w * 3.0));
             se3.enforce_bounds(&mut raw);
